@@ -96,6 +96,16 @@ def run(ctx: Ctx) -> None:
                 for u in un:
                     if not gf.dominates(lambda n, _nid=nid: n.id == _nid, u):
                         after = False
+                idle_prop = repo.func(M2, "H2Protocol.idle")
+                pr = [n for n in walk_local(idle_prop) if isinstance(n, ast.Return)]
+                ref = norm(pr[0].value) if pr else "?"
+                vexpr = v
+                if isinstance(v, ast.Name):
+                    defs_ = [s_ for s_ in walk_local(fn) if isinstance(s_, ast.Assign) and dotted(s_.targets[0]) == v.id]
+                    vexpr = defs_[0].value if len(defs_) == 1 else v
+                same = norm(vexpr) in ("self.idle", ref)
+                ctx.check("C07.R1", f"{M2}:H2Protocol.{name}", "announced idleness is the connection's idle predicate", same,
+                          f"Updated(idle=...) is computed as `{norm(vexpr)}`, not as the connection's idle predicate `{ref}`: a connection whose remaining streams are all idle (closed WebSockets) is reported busy and never gets its keep-alive timer back", uc)
                 ctx.check("C07.R1", f"{M2}:H2Protocol.{name}", "announced idleness is recomputed after the removal", fresh and after, f"Updated(idle={norm(v)}) is computed from {p} {'before' if not after else 'after'} the stream is removed: the closing stream still counts as busy", uc)
     ctx.need(n_sites >= 2, f"only {n_sites} stream-removal sites found in H2Protocol")
 
@@ -198,12 +208,15 @@ def run(ctx: Ctx) -> None:
             fn = repo.func(wmod, f"{stcls}.{meth}")
             cn = find_calls(fn, "self._handle.cancel")
             ok = len(cn) == 1 and ("self._handle is not None", True) in guard_atoms(cn[0])
+            locked = lambda n_: any(isinstance(a_, ast.AsyncWith) and any(norm(i_.context_expr) == "self._lock" for i_ in a_.items) for a_ in ancestors(n_))
+            hasg = [s_ for s_ in walk_local(fn) if isinstance(s_, ast.Assign) and dotted(s_.targets[0]) == "self._handle"]
+            ok = ok and locked(cn[0]) and all(locked(s_) for s_ in hasg)
             if meth == "stop":
                 ok = ok and any(norm(s) == "self._handle = None" for s in walk_local(fn) if isinstance(s, ast.Assign))
             else:
                 asg = [s for s in walk_local(fn) if isinstance(s, ast.Assign) and dotted(s.targets[0]) == "self._handle"]
                 ok = ok and len(asg) == 1 and "action" in provenance(asg[0].value, fn).leaves and cn and cn[0].lineno < asg[0].lineno
-            ctx.check("C07.R8", f"{wmod}:{stcls}.{meth}", "previous timer cancelled" + (" and replaced" if meth == "restart" else " and forgotten"), ok, "two timers would run at once / a stopped timer would still fire", fn)
+            ctx.check("C07.R8", f"{wmod}:{stcls}.{meth}", "previous timer cancelled" + (" and replaced" if meth == "restart" else " and forgotten") + ", under the single-task lock", ok, "two timers would run at once / a stopped timer would still fire (restart() is not atomic: without the lock a stop() racing with it leaves the new timer running on a busy connection)", fn)
 
     # ---------------- R7
     hi = repo.func("protocol.http_stream", "HTTPStream.idle")
